@@ -595,6 +595,10 @@ class SymEval:
             return fn(*[self.eval(a) for a in n.args], **kwargs)
         if isinstance(f, ast.Attribute) and isinstance(f.value, ast.Name) and f.value.id in self.np_names:
             fn = _NP_FUNCS.get(f.attr)
+            if fn is None and f.attr in ("seterr", "set_printoptions", "errstate"):
+                # settings of the numerical library: no effect on any value followed here (the effect on process-wide
+                # state is C16's business, decided there from the call itself)
+                return None
             if fn is None:
                 raise NotSymbolic(f"numpy function {f.attr}")
             args = pre_args if pre_args is not None else [self.eval(a) for a in n.args]
